@@ -980,3 +980,142 @@ Lemma broken_only_by_rerequest ns progs s q k key :
   R ns progs s -> nth_error (heap (ct (gl s))) q = Some (Cell k key Broken) ->
   exists q' st, (q < q')%nat /\ nth_error (heap (ct (gl s))) q' = Some (Cell k key st).
 Proof. intros HR. apply (C_broken _ (I_c _ _ (R_inv _ _ _ HR))). Qed.
+
+(* ---------- do_queries: the life cycle under concurrent callers ---------- *)
+(* the critical section of any method o moves every key along the sequential life-cycle
+   specification abs_step, and the value it will return is the one the specification gives *)
+Lemma queries ns progs s t c l g' l' es o :
+  R ns progs s -> nth_error (thr s) t = Some l -> at_ l = P_lock o ->
+  tstep t c (gl s) l = Some (g', l', es) ->
+  (forall k key, abs (ct g') k key = abs_step o k key (abs (ct (gl s)) k key)) /\
+  at_ l' = P_unlock (abs_ret o (ct (gl s))) false.
+Proof.
+  intros HR Hl Ha Hs. pose proof (I_c _ _ (R_inv _ _ _ HR)) as HC.
+  destruct (tstep_inv _ _ _ _ _ _ _ Hs) as [[o' [r [Ha' _]]]|[[o' [r [Ha' _]]]|
+    [[o' [c' [rv [flt [Ha' [Hm [Hap [-> [-> ->]]]]]]]]]|[rv [flt [Ha' _]]]]]]; try congruence.
+  rewrite Ha in Ha'. inversion Ha'; subst o'. cbn [ct at_].
+  destruct (apply_CInv _ _ _ _ _ HC Hap) as [_ ->].
+  split.
+  - intros k key. apply (apply_abs _ _ _ _ _ k key HC Hap).
+  - destruct (apply_abs _ _ _ _ _ false 0 HC Hap) as [_ ->]. reflexivity.
+Qed.
+(* steps that are not a critical section leave every life cycle alone (in fact: the whole container) *)
+Lemma ct_changes_only_in_cs t c g l g' l' es :
+  tstep t c g l = Some (g', l', es) -> is_lock (at_ l) = false -> ct g' = ct g.
+Proof.
+  intros Hs Hn.
+  destruct (tstep_inv _ _ _ _ _ _ _ Hs) as [[o [r [Ha [_ [-> _]]]]]|[[o [r [Ha [_ [-> _]]]]]|
+    [[o [c' [rv [flt [Ha _]]]]]|[rv [flt [Ha [-> _]]]]]]]; try reflexivity.
+  rewrite Ha in Hn. discriminate.
+Qed.
+(* the value computed in the critical section is the value the method returns *)
+Lemma ret_value t c g l g' l' es rv flt :
+  tstep t c g l = Some (g', l', es) -> at_ l = P_unlock rv flt ->
+  In (E K_RET 0 rv) es /\ at_ l' = Idle /\ ct g' = ct g /\ mtx g' = None.
+Proof.
+  intros Hs Ha.
+  destruct (tstep_inv _ _ _ _ _ _ _ Hs) as [[o [r [Ha' _]]]|[[o [r [Ha' _]]]|
+    [[o [c' [rv' [flt' [Ha' _]]]]]|[rv' [flt' [Ha' [-> [-> ->]]]]]]]]; try congruence.
+  rewrite Ha in Ha'. inversion Ha'; subst. cbn. repeat split; auto.
+  right. apply in_or_app. right. left. reflexivity.
+Qed.
+(* Pending and Completed at the same time only for a key that was requested twice *)
+Lemma both_only_rerequested ns progs s k key : R ns progs s -> abs (ct (gl s)) k key = (true, true) ->
+  exists q q' st st', q <> q' /\ nth_error (heap (ct (gl s))) q = Some (Cell k key st) /\
+                      nth_error (heap (ct (gl s))) q' = Some (Cell k key st').
+Proof.
+  intros HR Hab. pose proof (I_c _ _ (R_inv _ _ _ HR)) as HC. unfold abs in Hab. inversion Hab as [[H1 H2]].
+  apply ahas_true in H1. apply ahas_true in H2. destruct H1 as [q H1], H2 as [q' H2].
+  pose proof (C_pend _ HC _ _ _ H1) as E1. destruct (C_used _ HC _ _ _ H2) as [v E2].
+  exists q, q', Unset, (SetV v). repeat split; auto. intros ->. congruence.
+Qed.
+
+(* ---------- do_linearizable / do_atomic_sections ---------- *)
+Lemma linearizable ns progs s : R ns progs s -> replay (hist (gl s)) cont0 = Some (ct (gl s)).
+Proof. intros HR. apply (I_hist _ _ (R_inv _ _ _ HR)). Qed.
+
+(* the linearization point of a method is its lock step: it lies between the invoke and the
+   return of that call, and is the only step of the call that touches the history *)
+Lemma lin_point t c g l g' l' es : tstep t c g l = Some (g', l', es) ->
+  match at_ l with
+  | P_lock o => exists rv flt, hist g' = hist g ++ [(t, o, rv)] /\ at_ l' = P_unlock rv flt /\
+                               mtx g = None /\ mtx g' = Some t
+  | _ => hist g' = hist g
+  end.
+Proof.
+  intros Hs.
+  destruct (tstep_inv _ _ _ _ _ _ _ Hs) as [[o [r [Ha [_ [-> _]]]]]|[[o [r [Ha [_ [-> _]]]]]|
+    [[o [c' [rv [flt [Ha [Hm [_ [-> [-> _]]]]]]]]]|[rv [flt [Ha [-> _]]]]]]]; rewrite Ha; try reflexivity.
+  exists rv, flt. cbn. auto.
+Qed.
+
+Lemma mutual_exclusion ns progs s u u' :
+  R ns progs s -> is_unlock (pcof (thr s) u) = true -> is_unlock (pcof (thr s) u') = true -> u = u'.
+Proof.
+  intros HR H1 H2. pose proof (R_inv _ _ _ HR) as HI.
+  pose proof (I_owner _ _ HI _ H1). pose proof (I_owner _ _ HI _ H2). congruence.
+Qed.
+Lemma in_section_owns ns progs s u : R ns progs s ->
+  (is_unlock (pcof (thr s) u) = true <-> mtx (gl s) = Some u).
+Proof.
+  intros HR. pose proof (R_inv _ _ _ HR) as HI. split; [apply (I_owner _ _ HI)|apply (I_held _ _ HI)].
+Qed.
+
+(* ---------- liveness ---------- *)
+Lemma holder_enabled ns progs s a c : R ns progs s -> mtx (gl s) = Some a -> enabledD s a c.
+Proof.
+  intros HR Hm. pose proof (R_inv _ _ _ HR) as HI.
+  pose proof (I_held _ _ HI a Hm) as Hh. unfold pcof in Hh.
+  destruct (nth_error (thr s) a) as [l|] eqn:Hl; [|discriminate].
+  destruct l as [pr p sl]. cbn in Hh. destruct p; try discriminate.
+  eexists _, _. split; [reflexivity|]. unfold tstep. cbn [at_]. reflexivity.
+Qed.
+
+(* a method can be disabled only while it waits for promiseLock, and then the owner can move *)
+Lemma blocks_only_on_mutex ns progs s t c l :
+  R ns progs s -> nth_error (thr s) t = Some l -> fin l = false -> tstep t c (gl s) l = None ->
+  exists o a, at_ l = P_lock o /\ mtx (gl s) = Some a /\ a <> t /\ enabledD s a 0.
+Proof.
+  intros HR Hl Hf Hs. destruct l as [pr p sl]. unfold tstep in Hs. cbn [at_ prog slots] in *. destruct p.
+  - destruct pr as [|o r]; [discriminate|]. destruct o; discriminate.
+  - destruct (mtx (gl s)) as [a|] eqn:Hm.
+    + exists o, a. repeat split; auto.
+      * intros ->. pose proof (I_held _ _ (R_inv _ _ _ HR) t Hm) as Hh. rewrite (pcof_at _ _ _ Hl) in Hh. discriminate.
+      * eapply holder_enabled; eauto.
+    + destruct (apply o (ct (gl s))) as [[c' rv] flt]. discriminate.
+  - discriminate.
+Qed.
+
+(* no deadlock, no hang: when nothing can move, every program has run to completion *)
+Lemma quiescent_all_fin ns progs s : R ns progs s -> quiescentD s -> all_fin glob loc fin s = true.
+Proof.
+  intros HR HQ. unfold all_fin. apply forallb_forall. intros l Hin.
+  apply In_nth_error in Hin. destruct Hin as [t Hl].
+  destruct (fin l) eqn:Hf; [reflexivity|exfalso].
+  destruct (tstep t 0 (gl s) l) as [r|] eqn:Hs.
+  - apply (HQ t 0%nat); [lia|]. exists l, r. auto.
+  - destruct (blocks_only_on_mutex _ _ _ _ _ _ HR Hl Hf Hs) as [o [a [_ [_ [_ He]]]]].
+    apply (HQ a 0%nat); [lia|exact He].
+Qed.
+
+(* bounded work: every step (whatever the choice) decreases the measure: each call takes exactly three steps *)
+Definition wpc (p : pc) : nat := match p with Idle => 0 | P_lock _ => 2 | P_unlock _ _ => 1 end.
+Definition wloc (l : loc) : nat := (3 * length (prog l) + wpc (at_ l))%nat.
+Definition mu (s : sysD) : nat := list_sum (map wloc (thr s)).
+Definition any_choice (c : nat) : bool := true.
+
+Lemma mu_dec s t c : Inv (gl s) (thr s) -> any_choice c = true -> enabledD s t c -> (mu (stepD s (t, c)) < mu s)%nat.
+Proof.
+  intros HI _ [l [r [Hl Hs]]]. destruct r as [[g' l'] es].
+  unfold step, sys_step. rewrite Hl, Hs. cbn [fst]. unfold mu. cbn [gl thr].
+  apply (sum_step_dec wloc wloc (thr s) t l l' Hl); [intros; lia|].
+  destruct (tstep_inv _ _ _ _ _ _ _ Hs) as [[o [r [Ha [Hpr [_ [_ [-> _]]]]]]]|[[o [r [Ha [Hpr [_ [_ [-> _]]]]]]]|
+    [[o [c' [rv [flt [Ha [_ [_ [_ [-> _]]]]]]]]]|[rv [flt [Ha [_ [-> _]]]]]]]]; unfold wloc; rewrite ?Ha, ?Hpr; cbn; lia.
+Qed.
+Lemma bounded_work ns progs s sc : R ns progs s -> (moves glob loc tstep s sc <= mu s)%nat.
+Proof.
+  intros HR. eapply (moves_le_mu glob loc tstep mu Inv Inv_step any_choice).
+  - intros s0 t c. apply mu_dec.
+  - apply (R_inv _ _ _ HR).
+  - unfold sched_ok. apply forallb_forall. reflexivity.
+Qed.
